@@ -30,6 +30,8 @@ type Sched struct {
 	Hook      Hook
 	// After is called after every single delivery (C08 checks)
 	After func(d Delivery, ok bool, err *tss.Error)
+	// Before is called before every single delivery (C08 wrong-channel probe)
+	Before func(d Delivery)
 	// Sent is called for every message taken from the out channel
 	Sent    func(msg tss.Message)
 	pending []Delivery
@@ -89,6 +91,9 @@ func (s *Sched) Run() {
 		s.step++
 		d := s.pending[i]
 		s.pending = append(s.pending[:i:i], s.pending[i+1:]...)
+		if s.Before != nil {
+			s.Before(d)
+		}
 		var pm tss.ParsedMessage
 		if s.Hook != nil {
 			pm = s.Hook(d.Msg, d.To)
